@@ -9,16 +9,18 @@ Proof. vm_compute. reflexivity. Qed.
 Theorem recovery_all : forall c, In c cfgs -> p_recover_ok (fst c) (spec_of (snd c)) (Rof c) = true.
 Proof. intros c Hc. pose proof recovery_sweep as S. rewrite forallb_forall in S. exact (S c Hc). Qed.
 
-(** After a failure at ANY point of ANY call of a macro step that changes no setting, issued in ANY
-    state of the closed reachable set: [wake_up; update_frame; display_frame] ends with the same
-    addressing / power registers, image burst and refresh as on the driver that never made the failing
-    call - and wake_up begins with a hardware reset. *)
+(** After a failure at ANY SPI transfer of ANY call of ANY macro step of the alphabet (setting changes
+    included), issued in ANY state of the closed reachable set: [wake_up; update_frame; display_frame]
+    ends with the same addressing / power registers, image burst and refresh as on the driver on which
+    the same macro step completed - and wake_up begins with a hardware reset. *)
 Theorem recovery_spec : forall c, In c cfgs ->
-  forall s m d, In s (Rof c) -> In m (ps_alpha (spec_of (snd c))) -> existsb is_setting m = false ->
+  forall s m d d1, In s (Rof c) -> In m (ps_alpha (spec_of (snd c))) ->
+  macro_done (iD (fst c) (spec_of (snd c))) (iPP (fst c) (spec_of (snd c))) (iisig (fst c) (spec_of (snd c)))
+             (ilr (fst c) (spec_of (snd c)) 0) (ilr (fst c) (spec_of (snd c)) 1) s m = Some d1 ->
   In d (macro_fields (iD (fst c) (spec_of (snd c))) (iPP (fst c) (spec_of (snd c))) (iisig (fst c) (spec_of (snd c)))
                      (ilr (fst c) (spec_of (snd c)) 0) (ilr (fst c) (spec_of (snd c)) 1) s m) ->
-  pair_ok (iD (fst c) (spec_of (snd c))) (iPP (fst c) (spec_of (snd c))) (d, v_d s) = true.
+  pair_ok (iD (fst c) (spec_of (snd c))) (iPP (fst c) (spec_of (snd c))) (d, d1) = true.
 Proof.
-  intros c Hc s m d Hs Hm Hset Hd.
-  exact (recover_ok_spec _ _ _ _ _ _ (Rof c) (recovery_all c Hc) s m d Hs Hm Hset Hd).
+  intros c Hc s m d d1 Hs Hm Hdone Hd.
+  exact (recover_ok_spec _ _ _ _ _ _ (Rof c) (recovery_all c Hc) s m d d1 Hs Hm Hdone Hd).
 Qed.
